@@ -36,7 +36,7 @@ func legC13Entry(c *Ctx) {
 		{`^(?:(a)(b)(c)(d)(e)(f)(g)(h)(i)(j))*$`, false, []string{"", "", "abcdefghij"}, func(n int) string { return strings.Repeat("abcdefghij", n/4) }},
 		{`(?:(a)(b)(c)(d)(e)(f)|(x))+;`, false, []string{"x;", ";", "abcdef;"}, func(n int) string { return strings.Repeat("abcdef", n/3) + ";" }},
 	}
-	limits := []int{0, 1, 2, 3, 5, 8, 13, 21, 32, 33, 48, 64, 65, 100, 129, 200, 257, 400, 1000, -1, -2}
+	limits := []int{0, 1, 2, 3, 5, 8, 13, 21, 32, 33, 48, 64, 65, 100, 129, 200, 257, 400, 1000, 20000, 100000, -1, -2}
 	entries := []string{"MatchString", "FindAllStringIndex", "chain", "FindAllRunesIndex", "Replace", "ReplaceFunc", "Split", "Split3", "MatchString"}
 	call := func(re *regexp2.Regexp, entry, text string) (out string, err error, produced int) {
 		defer func() {
@@ -126,6 +126,13 @@ func legC13Entry(c *Ctx) {
 			shared := map[int]*regexp2.Regexp{}
 			for _, L := range limits {
 				shared[L] = compile(sp, L)
+				if (L < 0 || L >= 20000) && t%2 == 0 {
+					// a deep but legal match first: the runner goes back to the pool with a stack grown far beyond its initial
+					// size, and must serve the calls below like a new one
+					shared[L].MatchString(sp.deep(2600))
+					shared[L].FindStringMatch(sp.deep(2600))
+					c.Hist("warmed-up-with-a-deep-match")
+				}
 			}
 			for _, entry := range entries {
 				ref, rerr, _ := call(compile(sp, -1), entry, text)
